@@ -490,23 +490,45 @@ Proof.
 Qed.
 
 Definition PageLen (s : fsm) : Prop := bmlen s mod aunit s = 0.
+(* the blocks of the file header lie in front of the bitmap area and are marked allocated *)
+Definition HdrArea (s : fsm) : Prop :=
+  shr (hdrlen s) (bpow s) <= shr (bmoff s) (bpow s) /\ forall i, 0 <= i < shr (hdrlen s) (bpow s) -> getb (bm s) i = true.
+
+Lemma hdrarea_keeps : forall s s', HdrArea s -> BmArea s -> same_cfg s s' -> Keeps s s' -> HdrArea s'.
+Proof.
+  intros s s' [H1 H2] (B1 & B2 & B3 & B4 & _) (_ & C2 & _ & C4 & C5 & C6 & _) K. unfold HdrArea. rewrite C2, C5, C6.
+  split; [exact H1|]. intros i Hi. apply K; [lia|apply H2; exact Hi].
+Qed.
+
+Lemma hdrarea_grown : forall s s', HdrArea s -> BmArea s -> BmArea s' -> Grown s s' -> HdrArea s'.
+Proof.
+  intros s s' [H1 H2] (B1 & B2 & B3 & B4 & _) (D1 & D2 & D3 & _) (N & P & Q & G). unfold HdrArea. rewrite P, Q.
+  set (hb := shr (hdrlen s) (bpow s)) in *.
+  assert (Hin : forall i, 0 <= i < hb -> getb (bm s') i = true /\ ~ in_area s' i).
+  { intros i Hi. apply G; [lia|apply H2; exact Hi|]. unfold in_area. lia. }
+  split; [|intros i Hi; apply Hin; exact Hi].
+  assert (H0 : 0 <= shr (bmoff s') (bpow s)) by (unfold shr; apply Z.shiftr_nonneg; exact D1).
+  destruct (Z_le_gt_dec hb (shr (bmoff s') (bpow s))) as [|Hgt]; [assumption|]. exfalso.
+  destruct (Hin (shr (bmoff s') (bpow s)) ltac:(lia)) as [_ Hn]. apply Hn. unfold in_area. rewrite P in *. lia.
+Qed.
 (* invariant of the index (Inv), geometry (WF), code with the cache fix, the allocator's own area marked allocated, the
    file header naming the bitmap area in use, bitmap length a multiple of the page size *)
 Record Full (s : fsm) : Prop := mkFull { fu_good : Good s; fu_bm : BmArea s; fu_hs : HS s; fu_pl : PageLen s;
-  fu_hdr : 0 <= hdrlen s < 2 ^ 32 (* uint32_t hdrlen *) }.
+  fu_hdr : 0 <= hdrlen s < 2 ^ 32 (* uint32_t hdrlen *); fu_ha : HdrArea s }.
 
-Lemma full_cfg : forall s s', Full s -> Inv s' -> BmArea s' -> HS s' -> same_cfg s s' -> Full s'.
+Lemma full_cfg : forall s s', Full s -> Inv s' -> BmArea s' -> HS s' -> HdrArea s' -> same_cfg s s' -> Full s'.
 Proof.
-  intros s s' [Hg Hb Hh Hp Hd] I B H C. constructor; [apply (good_cfg s); assumption|exact B|exact H| |].
+  intros s s' [Hg Hb Hh Hp Hd Ha] I B H A C. constructor; [apply (good_cfg s); assumption|exact B|exact H| | |exact A].
   - destruct C as (_ & _ & C3 & C4 & _). unfold PageLen. rewrite C3, C4. exact Hp.
   - destruct C as (_ & _ & _ & _ & _ & C6 & _). rewrite C6. exact Hd.
 Qed.
 
 Lemma full_ensure_size : forall s z, Full s -> Full (ensure_size s z).
 Proof.
-  intros s z Hf. pose proof Hf as [Hg Hb Hh Hp Hhd]. destruct (ensure_fields s z) as [E C].
-  apply (full_cfg s); [exact Hf|apply Inv_ensure_size; apply Hg| |eapply hs_loc; [apply loc_ensure_size|exact Hh]|exact C].
-  destruct C as (_ & C2 & _ & C4 & C5 & _). unfold BmArea, nbits. rewrite E, C2, C4, C5. exact Hb.
+  intros s z Hf. pose proof Hf as [Hg Hb Hh Hp Hhd Hha]. destruct (ensure_fields s z) as [E C].
+  apply (full_cfg s); [exact Hf|apply Inv_ensure_size; apply Hg| |eapply hs_loc; [apply loc_ensure_size|exact Hh]| |exact C].
+  - destruct C as (_ & C2 & _ & C4 & C5 & _). unfold BmArea, nbits. rewrite E, C2, C4, C5. exact Hb.
+  - apply (hdrarea_keeps s); [exact Hha|exact Hb|exact C|intros i _ Hb1; rewrite E; exact Hb1].
 Qed.
 Lemma full_solid : forall s a b, Full s -> Full (solid s a b).
 Proof. intros s a b H. unfold solid. destruct (ensure_ok s (solid_sz s a b)); [apply full_ensure_size|]; exact H. Qed.
@@ -514,7 +536,8 @@ Proof. intros s a b H. unfold solid. destruct (ensure_ok s (solid_sz s a b)); [a
 Lemma full_allocated : forall s s' off n, Full s -> allocated_from s s' off n -> HS s' -> Full s'.
 Proof.
   intros s s' off n Hf Ha Hh. pose proof Ha as (I & C & _).
-  apply (full_cfg s); [exact Hf|exact I|eapply bmarea_after_alloc; [exact Ha|apply Hf]|exact Hh|exact C].
+  apply (full_cfg s); [exact Hf|exact I|eapply bmarea_after_alloc; [exact Ha|apply Hf]|exact Hh| |exact C].
+  apply (hdrarea_keeps s); [apply Hf|apply Hf|exact C|apply (keeps_alloc s s' off n Ha)].
 Qed.
 
 (* a live range that does not touch the header / the bitmap area is released: merge with the neighbours, everything else stays *)
@@ -522,11 +545,20 @@ Lemma free_full : forall s a m, Full s -> live_range s a m -> touches_meta s a m
   fst (blk_deallocate s a m) = 0 /\ Full (snd (blk_deallocate s a m)) /\ same_cfg s (snd (blk_deallocate s a m)) /\
   bm (snd (blk_deallocate s a m)) = set_range (bm s) a m false.
 Proof.
-  intros s a m Hf Hl Ht. pose proof Hf as [Hg Hb Hh Hp Hhd]. pose proof Hl as (L1 & L2 & L3 & L4).
+  intros s a m Hf Hl Ht. pose proof Hf as [Hg Hb Hh Hp Hhd Hha]. pose proof Hl as (L1 & L2 & L3 & L4).
   pose proof (blk_deallocate_good s a m Hg Hl) as H. pose proof (loc_blk_deallocate s a m) as Hloc.
   destruct (blk_deallocate s a m) as [rc s']. simpl in *. destruct H as (-> & (I' & _) & C & B).
   split; [reflexivity|]. split; [|split; assumption].
-  apply (full_cfg s); [exact Hf|exact I'| |eapply hs_loc; eassumption|exact C].
+  destruct (touches_meta_false s a m Ht) as [Thd _]. apply ranges_overlap_zero in Thd.
+  apply (full_cfg s); [exact Hf|exact I'| |eapply hs_loc; eassumption| |exact C].
+  2:{ destruct Hha as [A1 A2]. destruct C as (W1 & W2 & W3 & W4 & W5 & W6 & W7). unfold HdrArea. rewrite W2, W5, W6.
+      split; [exact A1|]. intros i Hi. rewrite B.
+      destruct Hb as (B1 & B2 & B3 & B4 & B5). destruct Hg as (Hi0 & _). pose proof (inv_len s Hi0) as Hlen. unfold nbits in *.
+      rewrite getb_set_range by lia.
+      replace ((a <=? i) && (i <? a + m)) with false
+        by (symmetry; destruct (a <=? i) eqn:Q1; [|reflexivity]; destruct (i <? a + m) eqn:Q2; [|reflexivity];
+            apply Z.leb_le in Q1; apply Z.ltb_lt in Q2; lia).
+      apply A2. exact Hi. }
   destruct Hb as (B1 & B2 & B3 & B4 & B5). destruct C as (W1 & W2 & W3 & W4 & W5 & W6 & W7).
   unfold BmArea, nbits in *. rewrite W2, W4, W5.
   split; [exact B1|]. split; [exact B2|]. split; [exact B3|]. split; [exact B4|].
@@ -568,7 +600,7 @@ Lemma resize_full : forall s, Full s -> bmlen s * 16 <= FSM_BKEY_MAX ->
   Full (snd (resize_fsm_bitmap s (shl (bmlen s) 1))) /\
   (fst (resize_fsm_bitmap s (shl (bmlen s) 1)) = 0 -> Grown s (snd (resize_fsm_bitmap s (shl (bmlen s) 1)))).
 Proof.
-  intros s Hf Hb. pose proof Hf as [(Hi & Hwf & Hfx) Hba Hh Hp Hhd].
+  intros s Hf Hb. pose proof Hf as [(Hi & Hwf & Hfx) Hba Hh Hp Hhd Hha].
   pose proof Hba as (B1 & B2 & _). pose proof Hwf as [Hbp (j & Hj & Hjr)].
   assert (Hsz : shl (bmlen s) 1 = bmlen s * 2) by (rewrite shl_mul by lia; reflexivity).
   assert (Hru : IW_ROUNDUP (shl (bmlen s) 1) (aunit s) = bmlen s * 2).
@@ -582,10 +614,10 @@ Proof.
   pose proof (hk_resize s (shl (bmlen s) 1)) as Hk.
   destruct (resize_fsm_bitmap s (shl (bmlen s) 1)) as [rc s']. simpl in *. unfold resize_outcome in Ho.
   pose proof (hk_hs _ _ Hk Hh) as Hh'.
-  destruct Ho as [[-> ->]|[(Hrc & I' & Ba' & C)|(-> & I' & Ba' & HG & Hl & Hlt & O3 & O4 & O5 & O6 & O7)]].
+  destruct Ho as [[-> ->]|[(Hrc & I' & Ba' & C & K)|(-> & I' & Ba' & HG & Hl & Hlt & O3 & O4 & O5 & O6 & O7)]].
   - split; [exact Hf|intros _; apply grown_refl].
-  - split; [apply (full_cfg s); assumption|intros H0; contradiction].
-  - split; [|intros _; exact HG]. constructor; [|exact Ba'|exact Hh'| |rewrite O6; exact Hhd].
+  - split; [apply (full_cfg s); try assumption; apply (hdrarea_keeps s); assumption|intros H0; contradiction].
+  - split; [|intros _; exact HG]. constructor; [|exact Ba'|exact Hh'| |rewrite O6; exact Hhd|apply (hdrarea_grown s); assumption].
     + split; [exact I'|]. split; [|rewrite O3; exact Hfx].
       constructor; [rewrite O4; exact Hbp|]. exists j. rewrite O4, O5. split; assumption.
     + unfold PageLen. rewrite Hl, Hru, O5. unfold PageLen in Hp. rewrite Z.mul_comm.
@@ -767,7 +799,7 @@ Theorem reallocate_full : forall s nlen addr olen opts ovr, Full s -> 0 <= nlen 
   let r := reallocate s nlen addr olen opts ovr in
   bmlen (state_of r) * 16 <= FSM_BKEY_MAX -> Full (state_of r).
 Proof.
-  intros s nlen addr olen opts ovr Hf Hnl Hl Hown. cbv zeta. pose proof Hf as [(Hi & Hwf & Hfx) Hba Hh Hp Hhd]. unfold reallocate.
+  intros s nlen addr olen opts ovr Hf Hnl Hl Hown. cbv zeta. pose proof Hf as [(Hi & Hwf & Hfx) Hba Hh Hp Hhd Hha]. unfold reallocate.
   destruct (negb (Z.land addr (blkmask s) =? 0) || negb (Z.land olen (blkmask s) =? 0)); [intros _; exact Hf|].
   set (nb := shr (IW_ROUNDUP nlen (pow2 (bpow s))) (bpow s)).
   set (ob := blk_of s olen) in *. set (ab := blk_of s addr) in *.
@@ -819,8 +851,8 @@ Qed.
 (* ---------------------------------------------------------------- B4. _fsm_trim_tail_lw *)
 Lemma full_set_fsize : forall s x, Full s -> Full (set_fsize s x).
 Proof.
-  intros s x Hf. pose proof Hf as [(Hi & Hwf & Hfx) Hb Hh Hp Hhd].
-  apply (full_cfg s); [exact Hf|apply (Inv_ext s); try reflexivity; exact Hi|exact Hb|exact Hh|unfold same_cfg; repeat split].
+  intros s x Hf. pose proof Hf as [(Hi & Hwf & Hfx) Hb Hh Hp Hhd Hha].
+  apply (full_cfg s); [exact Hf|apply (Inv_ext s); try reflexivity; exact Hi|exact Hb|exact Hh|exact Hha|unfold same_cfg; repeat split].
 Qed.
 
 (* after a relocation the new area is marked allocated, provided it has no block in common with the old one *)
@@ -861,26 +893,25 @@ Qed.
 
 (* _fsm_trim_tail_lw: the bitmap is moved towards the start of the file when a page-aligned free run in front of it holds it
    (a relocation to an area of the SAME length), then the file is cut behind the last used block *)
-Theorem trim_full : forall s, Full s -> Full (snd (trim_tail s)).
+(* the last step of _fsm_trim_tail_lw: the file is cut behind the last used block (not in front of the end of the bitmap area) *)
+Definition cut_step (s2 : fsm) : Z * fsm :=
+  let lastblk := shr (bmoff s2 + bmlen s2) (bpow s2) in
+  let lastblk := match find_prev_set_bit (bm s2) (nbits s2) lastblk with Some o => o + 1 | None => lastblk end in
+  if fsize s2 >? shl lastblk (bpow s2)
+  then (0, set_fsize s2 (IW_ROUNDUP (shl lastblk (bpow s2)) (aunit s2))) else (0, s2).
+
+Lemma trim_shape : forall s, Full s ->
+  (fst (trim_tail s) <> 0 /\ Full (snd (trim_tail s))) \/ (exists s2, Full s2 /\ trim_tail s = cut_step s2).
 Proof.
-  intros s Hf. pose proof Hf as [(Hi & Hwf & Hfx) Hba Hh Hp Hhd]. pose proof Hba as (B1 & B2 & B3 & B4 & B5).
+  intros s Hf. pose proof Hf as [(Hi & Hwf & Hfx) Hba Hh Hp Hhd Hha]. pose proof Hba as (B1 & B2 & B3 & B4 & B5).
   pose proof (wf_bpow_lt s Hwf) as Hb. unfold trim_tail.
   pose proof (blk_allocate_aligned_spec s (shr (bmlen s) (bpow s)) (shr (bmoff s) (bpow s)) Hi Hwf B3) as Hsp.
   pose proof (loc_blk_allocate_aligned s (shr (bmlen s) (bpow s)) (shr (bmoff s) (bpow s))) as Hloc.
   destruct (blk_allocate_aligned s (shr (bmlen s) (bpow s)) (shr (bmoff s) (bpow s))) as [[[rc s1] off] len]. simpl in Hloc.
-  assert (Hcut : forall s2, Full s2 ->
-            Full (snd (let lastblk := shr (bmoff s2 + bmlen s2) (bpow s2) in
-                       let lastblk := match find_prev_set_bit (bm s2) (nbits s2) lastblk with Some o => o + 1 | None => lastblk end in
-                       if fsize s2 >? shl lastblk (bpow s2)
-                       then (0, set_fsize s2 (IW_ROUNDUP (shl lastblk (bpow s2)) (aunit s2))) else (0, s2)))).
-  { intros s2 H2. cbv zeta.
-    destruct (fsize s2 >? shl (match find_prev_set_bit (bm s2) (nbits s2) (shr (bmoff s2 + bmlen s2) (bpow s2)) with
-                               | Some o => o + 1 | None => shr (bmoff s2 + bmlen s2) (bpow s2) end) (bpow s2));
-      simpl; [apply full_set_fsize|]; exact H2. }
   destruct Hsp as [[-> ->]|(-> & -> & Ha & Hmod & Hmx)].
   - replace (negb (IWFS_ERROR_NO_FREE_SPACE =? 0) && negb (IWFS_ERROR_NO_FREE_SPACE =? IWFS_ERROR_NO_FREE_SPACE)) with false by reflexivity.
     replace (negb (IWFS_ERROR_NO_FREE_SPACE =? 0)) with true by reflexivity. cbv iota.
-    replace (negb (0 =? 0)) with false by reflexivity. cbv iota. apply Hcut. exact Hf.
+    replace (negb (0 =? 0)) with false by reflexivity. cbv iota. right. exists s. split; [exact Hf|reflexivity].
   - replace (negb (0 =? 0) && negb (0 =? IWFS_ERROR_NO_FREE_SPACE)) with false by reflexivity.
     replace (negb (0 =? 0)) with false by reflexivity. cbv iota.
     set (L := shr (bmlen s) (bpow s)) in *.
@@ -912,18 +943,100 @@ Proof.
         - constructor; [|
             apply (reloc_area s1 s2 (shl off (bpow s)) (bmlen s) (inv_len s1 I1) ltac:(lia) D1 ltac:(rewrite shl_mul by lia; nia)
                      ltac:(rewrite V2; lia) O8 O1 O2 O4 ltac:(rewrite <- V4; exact D3) ltac:(rewrite Hshr, V2; fold L; unfold nbits in A3; lia))
-            |exact Hh2|unfold PageLen; rewrite O2, O5, V3; exact Hp|rewrite O6, V6; exact Hhd].
+            |exact Hh2|unfold PageLen; rewrite O2, O5, V3; exact Hp|rewrite O6, V6; exact Hhd|].
           + split; [exact I'|]. split; [|rewrite O3, V1; exact Hfx].
             destruct Hwf as [Hbp (j & Hj & Hjr)]. constructor; [rewrite O4, V2; exact Hbp|]. exists j. rewrite O4, O5, V2, V3. split; assumption.
           + intros i Hi1 Hc. rewrite Hshr, V2 in Hi1. fold L in Hi1. unfold in_area in Hc. rewrite V2, V4, V5 in Hc.
+            assert (getb (bm s) i = true) by (apply B5; exact Hc). rewrite A4 in H by lia. discriminate.
+          + (* the header: every block in use outside the old area stays in use and outside the new area *)
+            assert (HG : Grown s s2).
+            { apply (reloc_grown s s1 s2 (shl off (bpow s)) (bmlen s) (inv_len s1 I1) O8 O1 O2 ltac:(congruence) ltac:(congruence) C1).
+              - apply (keeps_alloc s s1 off L Ha).
+              - lia.
+              - exact B1.
+              - rewrite shr_shl by lia. lia.
+              - intros i Hi1 _. rewrite shr_shl in Hi1 by lia. apply A4. exact Hi1. }
+            apply (hdrarea_grown s s2 Hha Hba); [|exact HG].
+            apply (reloc_area s1 s2 (shl off (bpow s)) (bmlen s) (inv_len s1 I1) ltac:(lia) D1 ltac:(rewrite shl_mul by lia; nia)
+                     ltac:(rewrite V2; lia) O8 O1 O2 O4 ltac:(rewrite <- V4; exact D3) ltac:(rewrite Hshr, V2; fold L; unfold nbits in A3; lia)).
+            intros i Hi1 Hc. rewrite Hshr, V2 in Hi1. fold L in Hi1. unfold in_area in Hc. rewrite V2, V4, V5 in Hc.
             assert (getb (bm s) i = true) by (apply B5; exact Hc). rewrite A4 in H by lia. discriminate. }
-      destruct (negb (rc2 =? 0)); [exact HF2|apply Hcut; exact HF2].
+      destruct (negb (rc2 =? 0)) eqn:E;
+        [left; split; [simpl; intros ->; discriminate E|exact HF2]|right; exists s2; split; [exact HF2|reflexivity]].
     + (* "should never be reached": the area is given back *)
-      destruct (carved_release s s1 off L HgS Hba Ha) as (I2 & B2' & C2).
+      destruct (carved_release s s1 off L HgS Hba Ha) as (I2 & B2' & C2 & K2).
       pose proof (loc_blk_deallocate s1 off L) as Hl2.
       destruct (blk_deallocate s1 off L) as [rc2 s2]. simpl in *.
-      assert (HF2 : Full s2) by (apply (full_cfg s); [exact Hf|exact I2|exact B2'|eapply hs_loc; [exact Hl2|apply Hf1]|exact C2]).
-      destruct (negb (rc2 =? 0)); [exact HF2|apply Hcut; exact HF2].
+      assert (HF2 : Full s2) by (apply (full_cfg s); [exact Hf|exact I2|exact B2'|eapply hs_loc; [exact Hl2|apply Hf1]|
+                                  apply (hdrarea_keeps s); assumption|exact C2]).
+      destruct (negb (rc2 =? 0)) eqn:E;
+        [left; split; [simpl; intros ->; discriminate E|exact HF2]|right; exists s2; split; [exact HF2|reflexivity]].
+Qed.
+
+Lemma cut_step_full : forall s2, Full s2 -> Full (snd (cut_step s2)).
+Proof.
+  intros s2 H2. unfold cut_step.
+  destruct (fsize s2 >? shl (match find_prev_set_bit (bm s2) (nbits s2) (shr (bmoff s2 + bmlen s2) (bpow s2)) with
+                             | Some o => o + 1 | None => shr (bmoff s2 + bmlen s2) (bpow s2) end) (bpow s2));
+    simpl; [apply full_set_fsize|]; exact H2.
+Qed.
+
+Theorem trim_full : forall s, Full s -> Full (snd (trim_tail s)).
+Proof.
+  intros s Hf. destruct (trim_shape s Hf) as [[_ H]|(s2 & H2 & E)]; [exact H|]. rewrite E. apply cut_step_full. exact H2.
+Qed.
+
+(* C11 "closing trims the file to the end of the last used block": after a trim that returns 0 there is a block number [last] -
+   the end of the bitmap area, or one past a used block behind it - such that no block from [last] on is in use and the file
+   ends at most at the page round-up of [last] *)
+Theorem trim_to_last_used : forall s, Full s -> fst (trim_tail s) = 0 ->
+  let s' := snd (trim_tail s) in
+  exists last,
+    (forall j, last <= j < nbits s' -> getb (bm s') j = false) /\
+    (last = shr (bmoff s' + bmlen s') (bpow s') \/
+     (shr (bmoff s' + bmlen s') (bpow s') < last <= nbits s' /\ getb (bm s') (last - 1) = true)) /\
+    fsize s' <= IW_ROUNDUP (shl last (bpow s')) (aunit s').
+Proof.
+  intros s Hf H0. cbv zeta. destruct (trim_shape s Hf) as [[Hn _]|(s2 & H2 & E)]; [contradiction|]. rewrite E. clear E H0.
+  pose proof H2 as [(Hi & Hwf & Hfx) Hba Hh Hp Hhd Hha]. pose proof Hba as (B1 & B2 & B3 & B4 & B5).
+  pose proof (wf_bpow_lt s2 Hwf) as Hb. destruct Hwf as [Hbp (j & Hj & Hjr)].
+  set (lb0 := shr (bmoff s2 + bmlen s2) (bpow s2)).
+  assert (Hlb0 : 0 <= lb0) by (unfold lb0, shr; apply Z.shiftr_nonneg; lia).
+  pose proof (find_prev_spec (bm s2) (nbits s2) lb0 Hlb0 ltac:(rewrite (inv_len s2 Hi); lia)) as Hsp.
+  unfold cut_step. fold lb0.
+  set (last := match find_prev_set_bit (bm s2) (nbits s2) lb0 with Some o => o + 1 | None => lb0 end).
+  assert (Hlast : (forall jx, last <= jx < nbits s2 -> getb (bm s2) jx = false) /\
+                  (last = lb0 \/ (lb0 < last <= nbits s2 /\ getb (bm s2) (last - 1) = true))).
+  { unfold last. destruct (find_prev_set_bit (bm s2) (nbits s2) lb0) as [r|].
+    - destruct Hsp as (R1 & R2 & R3). split; [intros jx Hjx; apply R3; lia|right].
+      split; [lia|]. replace (r + 1 - 1) with r by lia. exact R2.
+    - split; [intros jx Hjx; apply Hsp; lia|left; reflexivity]. }
+  destruct Hlast as [Hfree Hwhich].
+  assert (Hlast_le : 0 <= last <= Z.max lb0 (nbits s2)) by (destruct Hwhich as [->|[? _]]; lia).
+  assert (Hx : shl last (bpow s2) <= IW_ROUNDUP (shl last (bpow s2)) (aunit s2) \/ nbits s2 < lb0).
+  { destruct (Z_lt_ge_dec (nbits s2) lb0) as [G|G]; [right; exact G|left].
+    rewrite Hj. rewrite shl_mul by lia.
+    pose proof (inv_u32 s2 Hi) as Hu. change FSM_BKEY_MAX with 4294967295 in Hu.
+    assert (Hp1 : 0 < 2 ^ bpow s2) by (apply Z.pow_pos_nonneg; lia).
+    assert (Hp2 : 2 ^ bpow s2 <= 2 ^ 31) by (apply Z.pow_le_mono_r; lia).
+    assert (Hp3 : 2 ^ j < 2 ^ 32) by (apply Z.pow_lt_mono_r; lia).
+    change (2 ^ 31) with 2147483648 in Hp2. change (2 ^ 32) with 4294967296 in Hp3.
+    destruct (roundup_pow2_props (last * 2 ^ bpow s2) j ltac:(lia) ltac:(nia)
+                ltac:(change (2 ^ 64) with 18446744073709551616; nia)) as [Hr _]. lia. }
+  exists last.
+  destruct (fsize s2 >? shl last (bpow s2)) eqn:Eg; simpl.
+  - split; [exact Hfree|]. split; [exact Hwhich|]. unfold nbits. simpl. lia.
+  - split; [exact Hfree|]. split; [exact Hwhich|].
+    rewrite Z.gtb_ltb in Eg. apply Z.ltb_ge in Eg. destruct Hx as [Hx|Hx]; [lia|].
+    (* the bitmap area cannot end behind the blocks the bitmap describes *)
+    exfalso. unfold lb0 in Hx.
+    (* the length of the bitmap is a multiple of the block size: the end of the area in blocks is exact *)
+    assert (Hwf2 : WF s2) by (constructor; [exact Hbp|exists j; split; [exact Hj|exact Hjr]]).
+    pose proof (page_len_blocks s2 Hwf2 Hp B2) as Hpl. rewrite shl_mul in Hpl by lia.
+    assert (He : shr (bmoff s2 + bmlen s2) (bpow s2) = shr (bmoff s2) (bpow s2) + shr (bmlen s2) (bpow s2)).
+    { rewrite <- Hpl at 1. rewrite (shr_div (bmoff s2 + _)) by lia. rewrite Z.div_add by (apply Z.pow_nonzero; lia).
+      rewrite <- shr_div by lia. reflexivity. }
+    lia.
 Qed.
 
 (* ---------------------------------------------------------------- B5. first-time layout: new file, _fsm_clear *)
@@ -1038,6 +1151,10 @@ Proof.
     + apply hs_write_meta.
     + unfold PageLen. rewrite K2, K5. exact Hpl.
     + rewrite K6. lia.
+    + unfold HdrArea. rewrite K1, K4, K6, K8. fold hb nb. split; [exact Hhb|].
+      intros i Hi1. rewrite Hb3 by lia.
+      replace ((0 <=? i) && (i <? hb)) with true by (symmetry; apply andb_true_iff; split; [apply Z.leb_le|apply Z.ltb_lt]; lia).
+      reflexivity.
   - unfold first_cfg. fold hb nb nl. rewrite K8.
     split; [exact K1|]. split; [exact K2|]. split; [exact K3|]. split; [exact K4|]. split; [exact K5|]. split; [exact K6|].
     split; [exact K7|]. split; [exact Kmx|exact Hb3].
@@ -1056,7 +1173,7 @@ Theorem clear_full : forall s tr, Full s -> fst (clear s tr) = 0 ->
   Full (snd (clear s tr)) /\
   (tr = false -> first_cfg s (snd (clear s tr)) (IW_ROUNDUP (hdrlen s) (aunit s)) (bmlen s)).
 Proof.
-  intros s tr Hf. pose proof Hf as [(Hi & Hwf & Hfx) Hba Hh Hp Hhd]. pose proof Hba as (B1 & B2 & B3 & _). unfold clear.
+  intros s tr Hf. pose proof Hf as [(Hi & Hwf & Hfx) Hba Hh Hp Hhd Hha]. pose proof Hba as (B1 & B2 & B3 & _). unfold clear.
   assert (Hbl0 : (bmlen s =? 0) = false).
   { apply Z.eqb_neq. intros He. rewrite He in B3. unfold shr in B3. rewrite Z.shiftr_0_l in B3. lia. }
   rewrite Hbl0. set (s0 := set_bmloc s 0 0). set (nbmoff := IW_ROUNDUP (hdrlen s) (aunit s)).
@@ -1117,8 +1234,8 @@ Qed.
 (* ---- close + reopen, trim or not, free space or none *)
 Lemma full_write_meta : forall s, Full s -> Full (write_meta s).
 Proof.
-  intros s Hf. pose proof Hf as [(Hi & Hwf & Hfx) Hb Hh Hp Hhd].
-  apply (full_cfg s); [exact Hf|apply (Inv_ext s); try reflexivity; exact Hi|exact Hb|apply hs_write_meta|unfold same_cfg; repeat split].
+  intros s Hf. pose proof Hf as [(Hi & Hwf & Hfx) Hb Hh Hp Hhd Hha].
+  apply (full_cfg s); [exact Hf|apply (Inv_ext s); try reflexivity; exact Hi|exact Hb|apply hs_write_meta|exact Hha|unfold same_cfg; repeat split].
 Qed.
 
 Lemma close_full : forall s notrim, Full s -> Full (snd (close s notrim)).
@@ -1130,12 +1247,13 @@ Qed.
 
 Lemma reopen_full : forall s st mm, Full s -> Full (reopen s st mm).
 Proof.
-  intros s st mm Hf. pose proof Hf as [(Hi & Hwf & Hfx) Hba Hh Hp Hhd].
+  intros s st mm Hf. pose proof Hf as [(Hi & Hwf & Hfx) Hba Hh Hp Hhd Hha].
   destruct (reopen_same s st mm (proj2 (hs_iff s) Hh) (inv_len s Hi) (inv_u32 s Hi) Hwf Hfx) as (Hg & E1 & E2 & E3 & E4 & E5 & _).
   assert (Ea : aunit (reopen s st mm) = aunit s) by (unfold reopen; destruct (geo_load_fsm (mkFsm (disk_bm s) [] 0 0 (p_bmoff s) (p_bmlen s) (hdrlen s) (bpow s) (aunit s) (fsize s) (p_crzsum s) (p_crznum s) (p_crzsum s) (p_crznum s) (p_bmoff s) (p_bmlen s) (maxoff s) st (mkVariant (fx_lfbk (vr s)) (fx_strict (vr s)) (fx_sync (vr s)) (fx_short (vr s)) (fx_realloc (vr s)) (fx_hint (vr s)) (fx_leak (vr s)) mm))) as [_ Ha]; exact Ha).
-  constructor; [exact Hg| |apply hs_reopen| |rewrite E4; exact Hhd].
+  constructor; [exact Hg| |apply hs_reopen| |rewrite E4; exact Hhd|].
   - unfold BmArea, nbits. rewrite E1, E2, E3, E5. exact Hba.
   - unfold PageLen. rewrite E3, Ea. exact Hp.
+  - unfold HdrArea. rewrite E1, E2, E4, E5. exact Hha.
 Qed.
 
 (* ---------------------------------------------------------------- B6. every operation, every history *)
@@ -1235,10 +1353,11 @@ Proof. intros v bp hl bl mx st ops Hfx Hbp Hbl H0 Hok Hb. apply run_full; [apply
 
 Lemma full_facts : forall s, Full s ->
   Good s /\ hdr_current s = true /\ (forall o n, In (n, o) (tree s) <-> is_run (bm s) o n) /\
-  (forall i, in_area s i -> getb (bm s) i = true).
+  (forall i, in_area s i -> getb (bm s) i = true) /\
+  (forall i, 0 <= i < shr (hdrlen s) (bpow s) -> getb (bm s) i = true).
 Proof.
-  intros s [Hg Hb Hh Hp Hd]. split; [exact Hg|]. split; [apply hs_iff; exact Hh|]. split; [apply (inv_runs s (proj1 Hg))|].
-  destruct Hb as (_ & _ & _ & _ & B). exact B.
+  intros s [Hg Hb Hh Hp Hd Ha]. split; [exact Hg|]. split; [apply hs_iff; exact Hh|]. split; [apply (inv_runs s (proj1 Hg))|].
+  destruct Hb as (_ & _ & _ & _ & B). split; [exact B|apply Ha].
 Qed.
 
 (* the hypotheses are satisfiable: a new 64-byte-block file and a history on it that grows the bitmap (the second request does
